@@ -434,7 +434,7 @@ func c16Nop(w *World, b *Backend, r *Result) {
 // helpers and flags
 // ---------------------------------------------------------------------------
 
-var reFlagCond = regexp.MustCompile(`^field:(\w+)$`)
+var reFlagCond = regexp.MustCompile(`^field:(\w+(?:\[\w+\])?)$`)
 
 // helperFlags: helper routine name -> flag field guarding its emission in ProgramEnd.
 func helperFlags(b *Backend) map[string]string {
@@ -489,6 +489,42 @@ func c16Helpers(w *World, b *Backend, r *Result, rules ...string) {
 		e := x.TopEnv(pe.Fn)
 		for _, blk := range pe.Fn.Blocks {
 			conds := x.controlConds(blk, e)
+			// flags requested through a helper of the converter (c.require(a, b)) or kept as map entries
+			for _, ins := range blk.Instrs {
+				tmp := &MethodFacts{Name: "ProgramEnd", FieldsSet: map[string][]string{}, FieldsRead: map[string]bool{}}
+				switch y := ins.(type) {
+				case *ssa.MapUpdate:
+					x.recordKeyedSet(y, e, tmp)
+				case *ssa.Call:
+					callee, clos, closEnv := x.resolveCallee(y, e)
+					if callee == nil || x.Sinks[callee] || x.emitters[callee] || !x.W.IsProduct(pkgOf(callee)) || callee.Blocks == nil || pkgOf(callee) != x.Pkg.Pkg {
+						continue
+					}
+					ne := x.bindCall(callee, y.Call.Args, e, &evalCtx{busy: map[ssa.Value]bool{}}, clos, closEnv)
+					x.walkEffects(callee, ne, tmp, map[*ssa.Function]bool{})
+				default:
+					continue
+				}
+				for name, vs := range tmp.FieldsSet {
+					isTrue := false
+					for _, v := range vs {
+						if v == "true" {
+							isTrue = true
+						}
+					}
+					if !isTrue {
+						continue
+					}
+					for _, c := range conds {
+						if m := reFlagCond.FindStringSubmatch(c); m != nil {
+							if dep[m[1]] == nil {
+								dep[m[1]] = map[string]bool{}
+							}
+							dep[m[1]][name] = true
+						}
+					}
+				}
+			}
 			for _, ins := range blk.Instrs {
 				st, ok := ins.(*ssa.Store)
 				if !ok {
